@@ -4,11 +4,28 @@ ID = "C01"
 META = dict(
     LEVEL="exploration",
     RULE=("forest-walk generated table collections (random parent maps mutated at random breakpoints, "
-          "decorated with sites/mutations/metadata) crossed with sample_lists x root_threshold x tracked_samples; "
-          "every tree reached by trees(), reversed, at(x) at left/mid/nextafter(right), at_index, first/last and by one reused Tree object swept forward, off the end, backward and re-positioned with first()/last() is "
-          "compared view-by-view with {child: parent} computed from the edge rows. A case is distinct by the sha1 "
-          "of its full row tuples and non-trivial when it has at least one edge."),
-    REQUIRED=["check_tree:trees()", "check_tree:at", "check_tree:reused-tree", "check_tree:copy", "check_tree:aslist", "edge_diffs"],
+          "decorated with sites/mutations/metadata; parents of equal time in permuted row order for a share) plus, "
+          "hash-interleaved so that every shard sees them, msprime simulations (1/60), structurally extreme instances "
+          "(2/60, kinds cycled: star/chain/comb/isolated/two-level/broom with >= 256 children, roots, samples or "
+          "path length) and ten fixed extremes (1/60: zero nodes, one node, zero samples, sub-interval edges ...); "
+          "the TreeSequence is made through tree_sequence(), build_index, load_tables, dump_tables, file and pickle; "
+          "crossed with sample_lists x root_threshold (1-3, exactly on / one above a root's sample count, number of "
+          "samples, 2^31-1) x tracked_samples (list, tuple, int32/int64 arrays, numpy scalars, deprecated "
+          "tracked_leaves / leaf_lists / sample_counts spellings, positional); every tree reached by trees(), "
+          "reversed, at(x) at left / next double above / mid / nextafter(right) / -0.0 as float, numpy.float64 and int, "
+          "at_index (also negative and numpy ints), first/last, aslist, copy(), a copy stepped on with next/prev, and by "
+          "one reused Tree object swept forward, off the end, backward, re-positioned with first()/last() and then "
+          "moved by random seek / seek_index / clear / next / prev, is compared view-by-view with {child: parent} "
+          "computed from the edge rows (arrays and the per-node accessor methods, deprecated get_* aliases, "
+          "traversal orders with and without a root argument incl. the virtual root, per-tree sites on every path, "
+          "the mutation -> edge map); edge_diffs in both directions with and without include_terminal and in the "
+          "documented edge order, edgesets/records as an exact cover, coiterate with itself and with another tree "
+          "sequence. A case is distinct by the sha1 of its full row tuples and non-trivial when it has at least one "
+          "edge."),
+    REQUIRED=["check_tree:trees()", "check_tree:at", "check_tree:at_index", "check_tree:reused-tree",
+              "check_tree:reused-jumps", "check_tree:copy", "check_tree:copy-then-step", "check_tree:aslist",
+              "check_tree:large", "wide-deep", "edge_diffs", "edge_diffs:order", "edge_diffs:terminal", "edgesets",
+              "coiterate:other"],
     ASSUMPTIONS=ASSUME_COMMON,
     BUDGET={"quick": 45.0, "thorough": 900.0},
 )
